@@ -362,15 +362,17 @@ impl ASN1Type {
         tlds: &BTreeMap<String, ToplevelDefinition>,
     ) -> bool {
         match self {
+            // every alternative / member is visited (`any` would stop at the first that links)
             ASN1Type::Choice(c) => c
                 .options
                 .iter_mut()
-                .any(|o| o.ty.link_components_of_notation(tlds)),
+                .fold(false, |linked, o| {
+                    o.ty.link_components_of_notation(tlds) || linked
+                }),
             ASN1Type::Set(s) | ASN1Type::Sequence(s) => {
-                let mut member_linking = s
-                    .members
-                    .iter_mut()
-                    .any(|m| m.ty.link_components_of_notation(tlds));
+                let mut member_linking = s.members.iter_mut().fold(false, |linked, m| {
+                    m.ty.link_components_of_notation(tlds) || linked
+                });
                 // TODO: properly link components of in extensions
                 // TODO: link components of Class field, such as COMPONENTS OF BILATERAL.&id
                 for comp_link in &s.components_of {
